@@ -11,7 +11,7 @@ import time
 
 from .. import common, gen, lin, observe, probe
 from ..observe import same
-from ..sched import Recorder, Sched
+from ..sched import LateHandles, Recorder, Sched
 
 PROP = 'C11'
 LEVEL = 'exploration'
@@ -340,13 +340,9 @@ def schedule(dc, sc, res, rng, label):
     shared = rng.random() < 0.5
     base = dc.Cache(d, timeout=0, disk_min_file_size=T, eviction_policy='none')
     n = rng.randrange(2, 4)
-    objs = []
     base_dq = dc.Deque.fromcache(base, maxlen=maxlen)
-    for i in range(n):
-        if shared:
-            objs.append(base_dq)
-        else:
-            objs.append(dc.Deque.fromcache(dc.Cache(d, timeout=0), maxlen=maxlen))
+    objs = LateHandles(rng, n, lambda: dc.Deque.fromcache(dc.Cache(d, timeout=0), maxlen=maxlen),
+                       shared=base_dq if shared else None)
     sch = Sched(rng, clock, strategy=rng.choice(['random', 'preempt', 'random', 'ops']),
                 preempt_points={rng.randrange(0, 150) for _ in range(3)})
     rec = Recorder(sch)
@@ -420,7 +416,7 @@ def schedule(dc, sc, res, rng, label):
                                                                                 'kind', 'result')} for o in ops]))
     finally:
         probe.set_controller(None)
-        for o in list({id(x): x for x in objs + [base_dq]}.values()):
+        for o in list({id(x): x for x in objs.all() + [base_dq]}.values()):
             try:
                 o.cache.close()
             except Exception:      # noqa: BLE001
